@@ -63,14 +63,17 @@ def assign(s, algorithm):
             if t > best:
                 best, best_p = t, p
         totals = sorted(totals)
-        if len(totals) > 1 and totals[-1] - totals[-2] <= 1e-12 * (1 + abs(totals[-1])):
+        # (relative to the magnitude of the scores: masks of any level)
+        level = float(np.max(np.abs(s))) if np.size(s) else 0.0
+        if len(totals) > 1 and totals[-1] - totals[-2] <= 1e-12 * K * level:
             tie = True
         return list(best_p), tie
     s = s.astype(float).copy()
+    level = float(np.max(np.abs(s))) if np.size(s) else 0.0
     out = [None] * K
     for _ in range(K):
         flat = np.sort(s[np.isfinite(s)].ravel())
-        if len(flat) > 1 and flat[-1] - flat[-2] <= 1e-12 * (1 + abs(flat[-1])):
+        if len(flat) > 1 and flat[-1] - flat[-2] <= 1e-12 * level:
             tie = True
         i, j = np.unravel_index(np.argmax(s), s.shape)
         out[i] = int(j)
